@@ -63,6 +63,12 @@ FIXED = ["EEEEEKKKKKGGGG", "KEGSTYPKRDDEAG", "EEEEDDEEDD", "KEKEK", "KGGEEEGGK",
 
 
 def cases(rng, tier):
+    # duplicates of objects with built-up state: every way of copying x every kind of state
+    for l in core.copy_cases(rng, 2 if tier == "quick" else 12, ['dmaxperm', 'kappa', 'dmax', 'html', 'phosseq']):
+        yield Case([l], {"kind": "duplicate-of-object"})
+    # objects handed back by moves / shuffles, and copy / deepcopy / pickle duplicates of objects with built-up state
+    for l in core.childq_cases(rng, 60 if tier == "quick" else 400, ['dmaxperm', 'kappa', 'dmax', 'html', 'phosseq']):
+        yield Case([l], {"kind": "object-from-move-or-copy"})
     nfix = 6 if tier == "quick" else 9
     for s in FIXED[:nfix]:
         sh = [q for q in shapes(rng, len(s)) if not q.startswith(("linComp", "cplx", "reduce", "ppii", "ww", "mw", "aafrac", "disorder", "countN", "fminus", "sty", "len"))][:37]
@@ -137,6 +143,11 @@ def same(a, b):
 
 
 def judge(case, reals, gens, specs):
+    if case.block and case.block[0].startswith("childq "):
+        if reals[0][0] != "childq":
+            return [("violation", 0, "%s -> %s" % (case.block[0], str(reals[0])[:300]))]
+        ok_c, why = core.judge_childq(reals[0])
+        return [] if ok_c else [("violation", 0, why)]
     out = []
     for i, (r, g, s) in enumerate(zip(reals, gens, specs)):
         if r[0] == "skip":
